@@ -162,6 +162,9 @@ def gen_blocks(rng, nmax=6, long_prob=0.15, zero_prob=0.0):
             s = 0
         elif rng.random() < long_prob:
             s = rng.randint(15, 40)
+            if rng.random() < 0.12:
+                # a really long block (beyond 2^16, where windowing, 16-bit counters and short-cuts would show)
+                s = rng.choice([65535, 65536, 65537, 70000, 131072, 200000, 2 ** 20 + 3])
         else:
             s = rng.randint(1, 8)
         dt = rng.choice([0, 0, 1, 2, 5])
